@@ -240,6 +240,18 @@ def run(ctx: vlib.Ctx, n_schemas: int, per_schema: int):
         problems = []
         if not gen.same(d_after, c["input"]):
             problems.append(f"input object was modified: {c['input']!r} -> {d_after!r}")
+        # direct oracle for Literal positions: an accepted value is one of the listed ones, of the same class
+        def lit_ok(t, v):
+            return any(type(v) is type(l) and v == l for l in t.extra)
+        if exc is None and c["kind"] == "root" and c["t"].kind == "lit" and not lit_ok(c["t"], c["input"]):
+            problems.append(f"Literal accepted {c['input']!r}, which is none of {c['t'].extra!r} (result {r!r})")
+        if exc is None and c["kind"] == "class" and isinstance(c["input"], dict):
+            for f in c["spec"].fields:
+                key = f.alias or f.name
+                if f.ty.kind == "lit" and key in c["input"] and not lit_ok(f.ty, c["input"][key]) and \
+                        not (c["input"][key] is None and f.default is None):
+                    problems.append(f"field {f.name}: Literal accepted {c['input'][key]!r}, none of {f.ty.extra!r} "
+                                    f"(instance holds {getattr(r, f.name, None)!r})")
         allowed = ("ValueError", "MissingField", "InvalidFieldValue", "ExtraKeysError") if c["kind"] == "class" else ("ValueError",)
         if exc is not None and type(exc).__name__ not in allowed:
             problems.append(f"undocumented {type(exc).__name__} escapes: {exc}")
@@ -250,7 +262,8 @@ def run(ctx: vlib.Ctx, n_schemas: int, per_schema: int):
                       "type_expr": gen.py_ann(c["t"]), "input_expr": gen.py_src(c["input"]), "observed": what[:300],
                       "outcome": (type(exc).__name__ if exc is not None else gen.py_src(r))[:400],
                       "expected": "documented exception / unmodified input"},
-                     {"kind": "xtyped-" + ("input-modified" if "modified" in what else "undocumented"), "root": c["kind"]})
+                     {"kind": "xtyped-" + ("input-modified" if "modified" in what else ("literal" if "Literal" in what else "undocumented")),
+                      "root": c["kind"]})
     br = vlib.coq_make(["theories/ErrsX.vo", "theories/CaseLib.vo", "theories/Wire.vo"])
     if not br.ok:
         return cases, None, "model does not build: " + (br.error or "")
